@@ -622,7 +622,13 @@ def synthetic(rng, label, n_groups=6, exact_mode=True, with_uq=False, ranges='so
         elif ranges == 'disjoint' and i < 2:
             rg = (100.0, 200.0) if i == 0 else (300.0, 400.0)
         tref = 298.15 if rg is None else rng.choice([rg[0], rg[1], (rg[0] + rg[1]) / 2])
-        corr = ThermochemGroup(ND_H_ref=ref(), ND_S_ref=ref(), ND_Cp_data={}, T_ref=tref, range=rg)
+        hr, sr = ref(), ref()
+        try:
+            corr = ThermochemGroup(ND_H_ref=hr, ND_S_ref=sr, ND_Cp_data={}, T_ref=tref, range=rg)
+        except Exception as e:
+            raise common.ImplFailure('a group correlation with valid data (reference values, no heat-capacity table, a valid range that '
+                                     'may consist of a single temperature) cannot be constructed',
+                                     {'ND_H_ref': str(hr), 'ND_S_ref': str(sr), 'T_ref': tref, 'range': rg}, e)
         kind = rng.random()
         key = nm
         if '(' in nm and kind < 0.6:
